@@ -953,3 +953,21 @@ package lisp
 //@   ensures  [result-owns-its-storage] result.Type == LSExpr ==> fresh(result) && fresh(arr(result.Cells)) && len(result.Cells) == 1 + old(len(args.Cells[1].Cells)) && result.Cells[0] == old(args.Cells[0])
 //@   modifies nothing
 //@   property C11
+
+// ---------------------------------------------------------------- C03: representation invariant of argument values
+// What the constructors of package lisp establish for every value a builtin can
+// be handed (an input invariant, assumed at the LBuiltin boundary by the sweep).
+//@ pred lvalOK(v) = v != nil && forall(k, 0, len(v.Cells), v.Cells[k] != nil) && (v.Type == LArray ==> len(v.Cells) == 2 && v.Cells[0].Type == LSExpr && v.Cells[1].Type == LSExpr && forall(k, 0, len(v.Cells[0].Cells), v.Cells[0].Cells[k] != nil && v.Cells[0].Cells[k].Type == LInt) && forall(k, 0, len(v.Cells[1].Cells), v.Cells[1].Cells[k] != nil)) && (v.Type == LBytes ==> typeis(v.Native, *[]byte) && v.Native.(*[]byte) != nil) && (v.Type == LSortMap ==> typeis(v.Native, *MapData) && v.Native.(*MapData) != nil && v.Native.(*MapData).mapBacking != nil) && (v.Type == LFun ==> typeis(v.Native, *funData)) && (v.Type == LTaggedVal ==> len(v.Cells) >= 1)
+
+// ---------------------------------------------------------------- package-level error constructors (used by the stdlib packages)
+//@ func ErrorConditionf
+//@   ensures  [is-error] result != nil && fresh(result) && result.Type == LError && result.Str == condition
+//@   modifies nothing
+//@   nopanic
+//@   property C14 C13
+
+//@ func Errorf
+//@   ensures  [is-error] result != nil && fresh(result) && result.Type == LError && result.Str == "error"
+//@   modifies nothing
+//@   nopanic
+//@   property C14 C13
